@@ -8,11 +8,19 @@ package content
 // contentFor: stores the block as a closure under "contentFor:"+name; emits nothing.
 //@ func ContentFor
 //@ requires help != nil
+// C17: defining a block emits nothing (no result) and stores exactly one value, under the block's name
+//@ assert key: callarg1 == "contentFor:" + name before Set#1
+//@ ensures stored: calls(Set) == 1 && calls(BlockWith) == 0
 //@ assigns mapsof("map[string]interface{}"), fresh
 
 // the stored closure: renders the block once in a fresh child scope extended with data
 //@ func ContentFor$1
 //@ requires help != nil
+// C17: every use renders the stored block exactly once, in a child scope created by this very use
+//@ ghost child = callresult after New#1
+//@ ghost body = callresult after BlockWith#1
+//@ assert scope: callarg1 == child && calls(New) == 1 before BlockWith#1
+//@ ensures once: err == nil ==> calls(BlockWith) == 1 && calls(New) == 1 && result == body
 //@ ensures fail: err != nil ==> result == ""
 //@ errprop
 //@ assigns mapsof("map[string]interface{}"), fresh
@@ -20,6 +28,19 @@ package content
 
 //@ func ContentOf
 //@ requires help != nil
+// C17: exactly one of {the stored block, the own default block} is rendered, exactly once, with the
+// data handed on unchanged; its text is the result; an undefined name without default block is an error
+//@ ghost stored = callresult after storedBlock#1
+//@ ghost storederr = callresult1 after storedBlock#1
+//@ ghost dchild = callresult after New#1
+//@ ghost dbody = callresult after BlockWith#1
+//@ ghost hasblk = callresult after HasBlock#1
+//@ assert handon: callarg1 == data && calls(BlockWith) == 0 before storedBlock#1
+//@ assert dfltscope: callarg1 == dchild && calls(New) == 1 && calls(HasBlock) == 1 && hasblk && calls(storedBlock) == 0 before BlockWith#1
+//@ ensures exactlyone: err == nil ==> calls(storedBlock) + calls(BlockWith) == 1
+//@ ensures storedres: calls(storedBlock) == 1 ==> result == stored && err == storederr
+//@ ensures dfltres: err == nil && calls(BlockWith) == 1 ==> result == dbody
+//@ ensures missing: calls(HasBlock) == 1 && !hasblk ==> err != nil
 //@ ensures fail: err != nil ==> result == ""
 //@ errprop
 //@ assigns mapsof("map[string]interface{}"), fresh
